@@ -629,7 +629,11 @@ impl NameResolution {
     ) -> hir::ExprId {
         match expr {
             ast::Expr::EPath { path, astptr } => {
-                if let Some(constructor) = self.constructor_path_for(path, ctx) {
+                let names_local = path.len() == 1
+                    && path
+                        .last_ident()
+                        .is_some_and(|ident| env.rfind(ident).is_some());
+                if !names_local && let Some(constructor) = self.constructor_path_for(path, ctx) {
                     return self.alloc_expr_with_ptr(
                         hir_table,
                         *astptr,
@@ -858,6 +862,20 @@ impl NameResolution {
                 args,
                 astptr,
             } => {
+                // A bare lower-case name that a parameter or closure parameter binds is that
+                // local, not the nullary constructor of the same name.
+                if args.is_empty()
+                    && constructor.len() == 1
+                    && constructor
+                        .last_ident()
+                        .is_some_and(|ident| env.rfind(ident).is_some())
+                {
+                    let as_path = ast::Expr::EPath {
+                        path: constructor.clone(),
+                        astptr: *astptr,
+                    };
+                    return self.resolve_expr(&as_path, env, ctx, hir_table);
+                }
                 let new_args = args
                     .iter()
                     .map(|arg| self.resolve_expr(arg, env, ctx, hir_table))
